@@ -13,14 +13,25 @@ Spec == Init /\ [][Next]_n
 Slack == 700        \* ms; real time, the failure modes are unbounded waits or whole-timeout differences
 
 (* ---- C15: admission on the effective address, before any protocol work ---- *)
-D(r, i) == Decision(r.cfg.proxy, r.cfg.limit, r.conns, i)
-Eff(r, i) == EffLabel(r.cfg.proxy, r.conns[i])
-C15_ServedIffAdmitted(r) == \A i \in 1..Len(r.conns) : (r.conns[i].outcome = "served") <=> (D(r, i) = "serve")
-C15_RefusedGetsNothing(r) == \A i \in 1..Len(r.conns) : D(r, i) # "serve" => (r.conns[i].bytes = 0 /\ r.conns[i].outcome = "closed")
-C15_NoBackendForUnserved(r) == \A i \in 1..Len(r.conns) : D(r, i) # "serve" => r.conns[i].adapterCalls = 0
-C15_BackendSeesEffective(r) == \A i \in 1..Len(r.conns) : r.conns[i].adapterCalls > 0 => r.conns[i].adapterAddr = Eff(r, i)
-C15_CookieBoundToEffective(r) == \A i \in 1..Len(r.conns) : r.conns[i].cookieAddr # "none" => r.conns[i].cookieAddr = Eff(r, i)
-C15_LoginGetsCookie(r) == \A i \in 1..Len(r.conns) : (r.conns[i].kind = "login" /\ D(r, i) = "serve" /\ r.cfg.secret) => r.conns[i].cookieAddr # "none"
+\* rd: the reading of address-less headers (Admission.tla); a history is fine if ONE reading explains all of it
+D(r, i, rd) == DecisionR(r.cfg.proxy, r.cfg.limit, r.conns, i, rd)
+Eff(r, i, rd) == EffLabelR(r.cfg.proxy, r.conns[i], rd)
+C15R_ServedIffAdmitted(r, rd) == \A i \in 1..Len(r.conns) : (r.conns[i].outcome = "served") <=> (D(r, i, rd) = "serve")
+C15R_RefusedGetsNothing(r, rd) == \A i \in 1..Len(r.conns) : D(r, i, rd) # "serve" => (r.conns[i].bytes = 0 /\ r.conns[i].outcome = "closed")
+C15R_NoBackendForUnserved(r, rd) == \A i \in 1..Len(r.conns) : D(r, i, rd) # "serve" => r.conns[i].adapterCalls = 0
+C15R_BackendSeesEffective(r, rd) == \A i \in 1..Len(r.conns) : r.conns[i].adapterCalls > 0 => r.conns[i].adapterAddr = Eff(r, i, rd)
+C15R_CookieBoundToEffective(r, rd) == \A i \in 1..Len(r.conns) : r.conns[i].cookieAddr # "none" => r.conns[i].cookieAddr = Eff(r, i, rd)
+C15R_LoginGetsCookie(r, rd) == \A i \in 1..Len(r.conns) : (r.conns[i].kind = "login" /\ D(r, i, rd) = "serve" /\ r.cfg.secret) => r.conns[i].cookieAddr # "none"
+C15All(r, rd) == /\ C15R_ServedIffAdmitted(r, rd) /\ C15R_RefusedGetsNothing(r, rd) /\ C15R_NoBackendForUnserved(r, rd)
+                 /\ C15R_BackendSeesEffective(r, rd) /\ C15R_CookieBoundToEffective(r, rd) /\ C15R_LoginGetsCookie(r, rd)
+\* a clause is reported as failing only if NO reading explains the whole history; then under the reading the code follows
+OkSomeReading(r) == \E rd \in Readings : C15All(r, rd)
+C15_ServedIffAdmitted(r) == OkSomeReading(r) \/ C15R_ServedIffAdmitted(r, "peer")
+C15_RefusedGetsNothing(r) == OkSomeReading(r) \/ C15R_RefusedGetsNothing(r, "peer")
+C15_NoBackendForUnserved(r) == OkSomeReading(r) \/ C15R_NoBackendForUnserved(r, "peer")
+C15_BackendSeesEffective(r) == OkSomeReading(r) \/ C15R_BackendSeesEffective(r, "peer")
+C15_CookieBoundToEffective(r) == \E rd \in Readings : C15R_CookieBoundToEffective(r, rd)
+C15_LoginGetsCookie(r) == \E rd \in Readings : C15R_LoginGetsCookie(r, rd)
 
 \* application level: the configured PROXY versions and the limiter as wired by passage::start. `expect` is computed here:
 \* a header of a disabled version is closed unserved and consumes no budget; enabled versions are served up to `limit` per source IP
@@ -94,6 +105,7 @@ Names(fam) == CASE fam = "C15" /\ Prop = "C10" -> {"C10_RecordsEffectiveAddress"
                 [] fam = "C14len" /\ Prop = "C04" -> {"C04_ConfiguredMaximumGoverns"}
                 [] fam = "C14cookie" /\ Prop = "C02" -> {"C02_ExpiryJudgedAtPresentation"}
                 [] fam = "C06deadline" -> {"C06_SilentUntilDeadlineClose"} [] fam = "C08hdr" -> {"C08_HeaderSegmentationIrrelevant"}
+                [] fam = "C14lenAt" -> {"C14_MaxLengthEverywhere"}
                 [] fam = "C14len" -> {"C14_MaxLength"} [] fam = "C14cookie" -> {"C14_CookieAcceptance"} [] fam = "C14deadline" -> {"C14_Deadline", "C14_OverlongRefused"}
                 [] OTHER -> {}
 Clause(c, r) ==
@@ -110,6 +122,7 @@ Clause(c, r) ==
     [] c = "C04_ConfiguredMaximumGoverns" -> C14_MaxLength(r)
     [] c = "C02_ExpiryJudgedAtPresentation" -> C02_ExpiryJudgedAtPresentation(r) [] c = "C06_SilentUntilDeadlineClose" -> C06_SilentUntilDeadlineClose(r)
     [] c = "C08_HeaderSegmentationIrrelevant" -> C08_HeaderSegmentationIrrelevant(r)
+    [] c = "C14_MaxLengthEverywhere" -> C14_MaxLength(r)
     [] c = "C14_MaxLength" -> C14_MaxLength(r) [] c = "C14_CookieAcceptance" -> C14_CookieAcceptance(r) [] c = "C14_Deadline" -> C14_Deadline(r) [] c = "C14_OverlongRefused" -> C14_OverlongRefused(r)
     [] OTHER -> FALSE
 
